@@ -405,8 +405,14 @@ func (c call) io() call { c.legal = withIO(c.legal); return c }
 
 type scOpt struct {
 	zFailsOnce bool
-	quick      int      // deviation bound of the quick tier (-1: unbounded, state pruning only)
-	c13        bool     // also serves C13 (listing guarantee under concurrency)
+	quick      int  // deviation bound of the quick tier (-1: unbounded, state pruning only)
+	c13        bool // also serves C13 (listing guarantee under concurrency)
+	// thorough is the deviation bound of the thorough tier; 0 means
+	// unbounded. Three or more LockPile users contending for the same two
+	// locks can be kept rotating for ever by an adversarial scheduler
+	// (every round costs preemptions): such scenarios need a bound, or the
+	// unbounded search walks that cycle until the step horizon.
+	thorough int
 }
 
 func concurrentScenario(name string, o scOpt, calls ...call) *mc.Scenario {
@@ -415,6 +421,10 @@ func concurrentScenario(name string, o scOpt, calls ...call) *mc.Scenario {
 		props = append(props, "C13")
 	}
 	zFailsOnce, quick := o.zFailsOnce, o.quick
+	thorough := -1
+	if o.thorough != 0 {
+		thorough = o.thorough
+	}
 	// cur carries the tree from Build to Finish (a worker process runs the
 	// executions of one scenario strictly one after another).
 	var cur *tree
@@ -424,7 +434,7 @@ func concurrentScenario(name string, o scOpt, calls ...call) *mc.Scenario {
 		Liveness: []string{"C14"},
 		Livelock: []string{"C14"},
 		Panics:   []string{"C14"},
-		Bounds:   map[string]int{"quick": quick, "thorough": -1},
+		Bounds:   map[string]int{"quick": quick, "thorough": thorough},
 		Build: func(x *mc.X) {
 			t := buildTree(x, zFailsOnce)
 			x.SetKey(t.dump)
@@ -553,7 +563,7 @@ func buildScenarios() []*mc.Scenario {
 			cRename("rename(d1/e->d2/c)", selD1, "e", selD2, "c"),
 			cCreateAndEnter("CreateAndEnter(d2/c)", selD2, "c", "")),
 		// Larger mixes (quick: two preemptions; thorough: everything).
-		concurrentScenario("conc-ring-of-renames", scOpt{quick: 2},
+		concurrentScenario("conc-ring-of-renames", scOpt{quick: 2, thorough: 6},
 			cRename("rename(d1/a->d2/a)", selD1, "a", selD2, "a"),
 			cRename("rename(d2/b->d1/e/b)", selD2, "b", selE, "b"),
 			cRename("rename(d1/e/x->d1/x)", selE, "x", selD1, "x"),
